@@ -423,3 +423,5 @@ _quick("C15", "C17_recycle", "(also under C17) 5..8 keys with values on a fast k
 _quick("C16", "C16_rotate", "history of C16_whole; after the compaction has chosen its inputs and opened rewrite.aof.tmp (schedule point at its time.Now()) the server goes on: nothing / a new persisted hold and a log rotation / the same plus a persisted release in the new current file; the compaction finishes; a restart recovers exactly the live holds", [], reach=["end", "rotated"], native=False)
 
 _quick("C18", "C18_handle", "a connection's whole life through the real Server.handle (protocol sniffing in checkProtocol, Process loop, close): text or binary client, first packet a will (LOCK ... WILL) or a PING, then nothing / a second will / a PING, then EOF; the server's writes fail from the first, from the second, or never: every registered will has run exactly once, the connection is closed, its protocol session is gone", ["-witness", "1"], reach=["end", "handled"])
+
+_quick("C18", "C18_willopts", "text LOCK / UNLOCK followed by every sequence of 1..3 options out of {WILL 1, EXPRIED 100, TIMEOUT 0} with WILL at least once (first, last, in the middle, repeated): never executed before the connection ends; registered (+OK) and run exactly once at Close, or refused and never run", ["-witness", "1"], reach=["end", "registered"])
